@@ -373,7 +373,7 @@ func ruleRegisterCallers(c *Ctx) []Obligation {
 					isRender = true
 				}
 			}
-			isItems := len(a.invokes(a.c.renderName())) > 0 && len(a.invokes(a.c.nullName())) > 0 // the list renderer
+			isItems := (len(a.invokes(a.c.renderName())) > 0 && len(a.invokes(a.c.nullName())) > 0) || f == c.role("renderItems") // the list renderer
 			isTokRender := func(g *ssa.Function) bool {
 				for _, r := range c.codeImpls(c.renderName()) {
 					if r == g && g.Signature.Recv() != nil && types.TypeString(g.Signature.Recv().Type(), shortQual) == "jen.token" {
